@@ -226,9 +226,10 @@ CHECKS = {
         "engines": lambda tier: [{"engine": "e2", "shards": 16, "args": {"schedules": 3000 if tier == "thorough" else 150, "free": 150 if tier == "thorough" else 10, "real": 40 if tier == "thorough" else 3}},
                                  {"engine": "e1", "shards": 16, "args": {"bias": "mixed", "cases": 1500 if tier == "thorough" else 80}},
                                  {"engine": "e1", "shards": 16, "args": {"bias": "chain", "cases": 800 if tier == "thorough" else 40}},
-                                 {"engine": "e3", "shards": 4, "timeout_s": 3000, "args": {"bias": "mixed", "cases": 300 if tier == "thorough" else 12, "parallel": 4}}],
+                                 {"engine": "e3", "shards": 4, "timeout_s": 3000, "args": {"bias": "mixed", "cases": 300 if tier == "thorough" else 12, "parallel": 4}},
+                                 {"engine": "e3", "shards": 4, "timeout_s": 3000, "args": {"bias": "chain", "cases": 12 if tier == "thorough" else 1, "parallel": 4, "memcheck": 1}}],
         "level": "exploration",
-        "rule": "three monitors over two engines (plus e3: E1 histories against the real teosd binary, where a panic message on its output or an unexpected exit is the violation). (1) E2 scheduler: in every scheduled / free-running execution of the C10 scenarios the observer mediates every "
+        "rule": "three monitors over two engines (plus e3: E1 histories against the real teosd binary, where a panic message on its output or an unexpected exit is the violation; a few of them with teosd running under valgrind memcheck - the bundled sqlite and libsecp256k1 are C - where any invalid access / use of uninitialised memory / fatal signal it reports is a violation; and the C10 scenarios run unscheduled against the real binary, where a request or block event that gets no answer in 20 s is the violation). (1) E2 scheduler: in every scheduled / free-running execution of the C10 scenarios the observer mediates every "
                 "tower lock; a state in which no tower thread is enabled (circular wait over lock owners, or everybody waiting) is detected deterministically and "
                 "reported with holders/waiters. (2) lock-order graph over everything executed; inversions are listed as predictions, only manifested circular "
                 "waits are verdicts. (3) panic hook: any panic raised in tower code in any E2 execution or E1 history (incl. resubmission of appointments in "
